@@ -22,10 +22,17 @@ class FloatSub(float):
     pass
 
 
+class StrSub(str):
+    """A plain str subclass (like multidict.istr, a (str, Enum) member, markupsafe.Markup): documented as acceptable
+    wherever a str is."""
+
+
 def enc_arg(x):
     """Python value -> JSON-able spec."""
     from multidict import MultiDict
 
+    if type(x) is StrSub:
+        return {"t": "strsub", "v": str.__str__(x)}
     if type(x) is IntSub:
         return {"t": "intsub", "v": str(int(x))}
     if type(x) is FloatSub:
@@ -61,6 +68,8 @@ def dec_arg(x):
         t = x["t"]
         if t == "int":
             return int(x["v"])
+        if t == "strsub":
+            return StrSub(x["v"])
         if t == "intsub":
             return IntSub(x["v"])
         if t == "floatsub":
@@ -118,7 +127,7 @@ def apply(op, touch=None):
     t = touch or (lambda u: u)
     k = op["op"]
     if k == "ctor":
-        return URL(op["s"], encoded=op.get("encoded", False))
+        return URL(StrSub(op["s"]) if op.get("strsub") else op["s"], encoded=op.get("encoded", False))
     if k == "build":
         kw = {a: dec_arg(v) for a, v in op["kw"].items()}
         return URL.build(**kw)
